@@ -129,7 +129,10 @@ func runExpand(j Job) JobResult {
 			// believe a violation only if it reproduces
 			for i := 0; i < 2; i++ {
 				if !sameProps(r.Violations, RunOnce(sc, nil, false, nil).Violations) {
-					c.EngineErr = "violation did not reproduce for " + sc.Name
+					for i := range r.Violations {
+						r.Violations[i].Fresh = true
+					}
+					break
 				}
 			}
 			c.Violations = r.Violations
